@@ -17,6 +17,7 @@ def mentions (id : Nat) : GEv → Bool
   | .req i _ _ => i == id
   | .resp i _ _ _ => i == id
   | .reload _ => false
+  | .diag i _ => i == id
 
 /-- Policies in force when transaction `id` was first seen, if it has been seen. -/
 def gPinned (d0 : Nat) : List GEv → Nat → Option Nat
@@ -41,8 +42,10 @@ def gRetry (d0 : Nat) : List GEv → List (Nat × (Nat × Nat))
 def gEventOk (d0 : Nat) (e : GEv) (older : List GEv) : Bool :=
   match e with
   | .reload _ => true
-  | .req id _ ver => ver == some (gLabel d0 older id)
+  | .req id _ ver => ver == some (stampLens (gLabel d0 older id))
   | .resp id seq status out => out == (retryLens (gRetry d0 older) (gLabel d0 older id) id seq status).2
+  -- the diagnosis record of a transaction is produced with the policies that transaction first saw
+  | .diag id r => r == some (diagLens (gLabel d0 older id))
 
 def gHoldsRev (d0 : Nat) : List GEv → Bool
   | [] => true
